@@ -122,6 +122,10 @@ def gen_program(rng, i):
         first = next((n for n, r in it.roles.items() if r["parent"] == "targets"), None)
         if first is not None and it.roles[first]["targets"] and len(it.roles[first]["targets"]) < 10 \
                 and it.roles[first]["threshold"] <= len(it.roles[first]["keys"]):
+            # the top-level role is being edited since from_repo: it is signed before the editor moves to the delegated role
+            prog.append({"op": "versions", "targets": vers[0]})
+            prog.append({"op": "expires", "targets": 86400 * 50})
+            prog.append({"op": "sign_targets_editor", "keys": [2]})
             prog.append({"op": "change_delegated_targets", "role": first})
             edit_names(it.roles[first]["targets"], first)
             nv = it.roles[first]["version"] + 5
@@ -270,6 +274,296 @@ def ed_sign_case(docs, root_id, it, final_keys, files, cs, base, pool_ids):
     return case, want
 
 
+class Role:
+    """a role as the program built it: header (as its delegating role lists it), content, key table of
+    its own delegations, children, and the keys its holder offered when it was last signed"""
+    def __init__(self, name, keyids=(), threshold=0, paths=(), version=None, expires=None):
+        self.name, self.keyids, self.threshold, self.paths = name, list(keyids), threshold, list(paths)
+        self.version, self.expires = version, expires
+        self.targets = {}
+        self.dkeys = []
+        self.children = []
+        self.signers = []
+        self.parent = None
+
+
+class Tracker:
+    """Interpreter of editing programs over the state RepositoryEditor holds (what the program PUT IN):
+    the role being edited, every role's header, content, version, expiration and the keys it was signed
+    with. Nothing is taken from the written files. ok becomes False on an operation it does not follow
+    (cross-party flow) or on a program the API would not accept in this state."""
+    def __init__(self):
+        self.top = None
+        self.cur = None
+        self.sv = self.tsv = self.sexp = self.tsexp = None
+        self.ok = True
+        self.final_keys = None
+        self.cur_at_sign = None
+        self.incoming = {}
+
+    def find(self, name, role=None):
+        # Targets::delegated_role: first match in pre-order
+        role = role or self.top
+        for c in role.children:
+            if c.name == name:
+                return c
+            r = self.find(name, c)
+            if r is not None:
+                return r
+        return None
+
+    def all_roles(self, role=None):
+        out = []
+        for c in (role or self.top).children:
+            out.append(c)
+            out += self.all_roles(c)
+        return out
+
+    def step(self, op, idx=None):
+        k = op["op"]
+        if k == "new":
+            self.top = Role("targets")
+            self.cur = self.top
+        elif k == "from_repo":
+            # targets with the whole tree are kept; versions and expirations of the top-level roles are not
+            if self.top is None:
+                self.ok = False
+                return
+            self.top.version = self.top.expires = None
+            self.sv = self.tsv = self.sexp = self.tsexp = None
+            self.cur = self.top
+        elif k in ("add_target", "remove_target", "clear_targets"):
+            if self.cur is None:
+                self.ok = False
+            elif k == "add_target":
+                self.cur.targets[op["name"]] = op["content"]
+            elif k == "remove_target":
+                self.cur.targets.pop(op["name"], None)
+            else:
+                self.cur.targets = {}
+        elif k == "versions":
+            if op.get("targets") is not None:
+                if self.cur is None:
+                    self.ok = False
+                else:
+                    self.cur.version = op["targets"]
+            if op.get("snapshot") is not None:
+                self.sv = op["snapshot"]
+            if op.get("timestamp") is not None:
+                self.tsv = op["timestamp"]
+        elif k == "expires":
+            if op.get("targets") is not None:
+                if self.cur is None:
+                    self.ok = False
+                else:
+                    self.cur.expires = op["targets"]
+            if op.get("snapshot") is not None:
+                self.sexp = op["snapshot"]
+            if op.get("timestamp") is not None:
+                self.tsexp = op["timestamp"]
+        elif k == "delegate_role":
+            if self.cur is None or "prefixes" in op:
+                self.ok = False
+                return
+            c = Role(op["name"], op["keys"], op["threshold"], op["paths"], op["version"], op["expires"])
+            c.signers = list(dict.fromkeys(op["keys"]))      # signed with every key given for it
+            c.parent = self.cur
+            self.cur.children.append(c)
+            for key in op["keys"]:
+                if key not in self.cur.dkeys:
+                    self.cur.dkeys.append(key)
+        elif k == "sign_targets_editor":
+            if self.cur is not None:
+                if self.cur.version is None or self.cur.expires is None:
+                    self.ok = False
+                offered = list(dict.fromkeys(op["keys"]))
+                if self.cur.parent is not None:
+                    # KeyHolder::get_keys: the offered keys the delegating role's key table has
+                    offered = [x for x in offered if x in self.cur.parent.dkeys]
+                self.cur.signers = offered
+            self.cur = None
+        elif k == "change_delegated_targets":
+            if self.cur is not None:
+                self.ok = False
+                return
+            role = self.top if op["role"] == "targets" else self.find(op["role"])
+            if role is None:
+                self.ok = False
+                return
+            role.version = role.expires = None          # TargetsEditor::from_targets discards them
+            self.cur = role
+        elif k == "sign_write":
+            self.final_keys = list(op["keys"])
+            self.cur_at_sign = self.cur
+            # RepositoryEditor::sign signs the role being edited first; sign consumes the editor
+            self.cur = None
+        elif k == "role_holder":
+            # another party: the holder of a delegated role loads the published repository, adds targets to its
+            # role, sets version and expiration and signs with its keys; the result waits in a directory
+            role = self.find(op["role"])
+            if role is None or self.cur is not None:
+                self.ok = False
+                return
+            tg = dict(role.targets)
+            for a in op["add"]:
+                tg[a["name"]] = a["content"]
+            self.incoming[idx] = {"role": role.name, "targets": tg, "version": op["version"], "expires": op["expires"],
+                                  "signers": [x for x in dict.fromkeys(op["keys"]) if x in role.parent.dkeys]}
+        elif k == "update_delegated_targets":
+            # the incoming document takes the place of the role's document (its delegated roles are kept)
+            inc = self.incoming.get(int(op["dir"][1:])) if op["dir"].startswith("@") else None
+            role = self.find(op["name"])
+            if inc is None or role is None or inc["role"] != role.name:
+                self.ok = False
+                return
+            role.targets, role.version, role.expires, role.signers = dict(inc["targets"]), inc["version"], inc["expires"], list(inc["signers"])
+            self.cur = None
+        elif k in ("load", "files"):
+            pass
+        else:
+            self.ok = False
+
+
+def track(prog, upto):
+    """state of the editor when operation number upto (a sign_write) is executed"""
+    t = Tracker()
+    for idx, op in enumerate(prog[:upto + 1]):
+        t.step(op, idx)
+        if not t.ok:
+            return None
+    if t.top is None or t.cur_at_sign is not t.top or None in (t.top.version, t.top.expires, t.sv, t.tsv, t.sexp, t.tsexp):
+        return None
+    if any(r.version is None or r.expires is None for r in t.all_roles()):
+        return None
+    return t
+
+
+def role_file_name(name, version, cs):
+    import urllib.parse
+    return ("%d." % version if cs else "") + urllib.parse.quote(name, safe="") + ".json"
+
+
+class Digests:
+    def __init__(self):
+        self.ids = {}
+
+    def of_hex(self, hexd):
+        return self.ids.setdefault(hexd, len(self.ids) + 1)
+
+    def of_bytes(self, raw):
+        return self.of_hex(hashlib.sha256(raw).hexdigest())
+
+
+def root_tree_of(rd):
+    code = {"root": 0, "snapshot": 1, "targets": 2, "timestamp": 3}
+    return [rd["version"], z_tree(rd["expires"]), 1 if rd["cs"] else 0, list(rd["keys"]),
+            [[code[k], list(v[0]), v[1]] for k, v in sorted(rd["roles"].items(), key=lambda kv: code[kv[0]])],
+            [list(x) for x in rd["sigs"]]]
+
+
+def tree_case(t, rd, files, cs, dg):
+    """the case for Model/EditorRT.v ed_sign_tree (run_C10 op 1 in Model/Run.v), built from the tracked state;
+    only lengths and digest identities of the written files (byte-level facts) come from files"""
+    def entries(role):
+        return sorted([C.enc(k), len(v.encode()), dg.of_bytes(v.encode())] for k, v in role.targets.items())
+    def node(r):
+        return [[C.enc(r.name), list(r.keyids), r.threshold, [0, [C.enc(p) for p in r.paths]]],
+                r.version, z_tree(r.expires), entries(r), list(r.dkeys), [node(c) for c in r.children], list(r.signers)]
+    def fd(name):
+        if files is None or name not in files:
+            return [0, 0]
+        raw = files[name].encode("utf-8")
+        return [len(raw), dg.of_bytes(raw)]
+    top = t.top
+    tbl = fd(role_file_name("targets", top.version, cs)) + fd(role_file_name("snapshot", t.sv, cs)) + fd("timestamp.json") \
+        + [[fd(role_file_name(r.name, r.version, cs)) for r in t.all_roles()]]
+    edit = [entries(top), top.version, t.sv, t.tsv, z_tree(top.expires), z_tree(t.sexp), z_tree(t.tsexp)]
+    return [10, 1, root_tree_of(rd), edit, list(top.dkeys), [node(c) for c in top.children], list(t.final_keys), tbl]
+
+
+class Unabstractable(Exception):
+    pass
+
+
+def written_tree(files, cs, base, pool_ids, dg, root_version):
+    """abstraction of the metadata directory the real editor wrote, in the format of the model's answer:
+    [1, targets with the tree attached (files resolved as the client resolves them), snapshot, timestamp,
+     [[file name, [4, document] | [3] | [2]]]]"""
+    parsed = edprog.parse_files(files)
+    def key_index(keyid):
+        if keyid not in pool_ids:
+            raise Unabstractable("key id %s is not a pool key" % keyid[:12])
+        return pool_ids.index(keyid)
+    def sigs_of(doc):
+        return sorted([key_index(sg["keyid"]), key_index(sg["keyid"]), 1] for sg in doc["signatures"])
+    def metas_of(m):
+        return [[C.enc(k), [v["version"], [v["length"]] if "length" in v else [],
+                            [dg.of_hex(v["hashes"]["sha256"])] if "hashes" in v else []]] for k, v in sorted(m.items())]
+    def exp(doc):
+        return z_tree(secs_of(doc["signed"]["expires"]) - base)
+    snap_name = edprog.role_file(files, "snapshot", cs)
+    if snap_name is None or parsed.get(snap_name) is None or parsed.get("timestamp.json") is None:
+        raise Unabstractable("no snapshot or timestamp file")
+    snap, ts = parsed[snap_name], parsed["timestamp.json"]
+    if snap["signed"].get("_type") != "snapshot" or ts["signed"].get("_type") != "timestamp":
+        raise Unabstractable("snapshot/timestamp file holds another role's document")
+    def doc_tree(doc, attach):
+        sd = doc["signed"]
+        if sd.get("_type") != "targets":
+            raise Unabstractable("a role file holds a %s document" % sd.get("_type"))
+        dl = sd.get("delegations")
+        roles = []
+        for r in (dl or {}).get("roles", []):
+            if "paths" not in r:
+                raise Unabstractable("path_hash_prefixes")
+            hdr = [C.enc(r["name"]), [key_index(k) for k in r["keyids"]], r["threshold"], [0, [C.enc(p) for p in r["paths"]]]]
+            child = []
+            if attach:
+                m = snap["signed"]["meta"].get(r["name"] + ".json")
+                fname = role_file_name(r["name"], m["version"], cs) if m else None
+                if fname is None or parsed.get(fname) is None:
+                    raise Unabstractable("no file for delegated role %r" % r["name"])
+                child = [doc_tree(parsed[fname], True)]
+            roles.append([hdr, child])
+        return [sd["version"], exp(doc),
+                sorted([C.enc(k), v["length"], dg.of_hex(v["hashes"]["sha256"])] for k, v in sd["targets"].items()),
+                1 if dl is not None else 0, sorted(key_index(k) for k in (dl or {}).get("keys", {})), roles, sigs_of(doc)]
+    tname = edprog.role_file(files, "targets", cs)
+    if tname is None or parsed.get(tname) is None:
+        raise Unabstractable("no targets file")
+    listing = []
+    for name in sorted(files):
+        if name == "%d.root.json" % root_version:
+            continue
+        doc = parsed.get(name)
+        kind = (doc or {}).get("signed", {}).get("_type")
+        if kind == "targets":
+            listing.append([C.enc(name), [4, doc_tree(doc, False)]])
+        elif kind == "snapshot":
+            listing.append([C.enc(name), [3]])
+        elif kind == "timestamp":
+            listing.append([C.enc(name), [2]])
+        else:
+            listing.append([C.enc(name), [0]])
+    return [1, doc_tree(parsed[tname], True),
+            [snap["signed"]["version"], exp(snap), metas_of(snap["signed"]["meta"]), sigs_of(snap)],
+            [ts["signed"]["version"], exp(ts), metas_of(ts["signed"]["meta"]), sigs_of(ts)],
+            sorted(listing)]
+
+
+def canon_tree(res):
+    """order-insensitive parts of the model's ed_sign_tree answer (entries, key tables, signature lists, snapshot
+    entries, file listing) as sorted lists; the order of delegated roles and of their key ids is kept"""
+    if not (isinstance(res, list) and res and res[0] == 1):
+        return res
+    def doc(d):
+        return [d[0], d[1], sorted(d[2]), d[3], sorted(d[4]),
+                [[r[0], [doc(r[1][0])] if r[1] else []] for r in d[5]], sorted(d[6])]
+    return [1, doc(res[1]), [res[2][0], res[2][1], sorted(res[2][2]), sorted(res[2][3])],
+            [res[3][0], res[3][1], sorted(res[3][2]), sorted(res[3][3])],
+            sorted([f[0], [4, doc(f[1][1])] if f[1][0] == 4 else f[1]] for f in res[4])]
+
+
 def canon_ed(res):
     """order-insensitive parts of the model's answer: entries, signature lists and file names as sorted lists"""
     if not (isinstance(res, list) and res and res[0] == 1):
@@ -294,7 +588,7 @@ def run(chk):
             chk.broken(f, {"theorem_gate": f})
     C.ensure_harness()
     rng = chk.rng
-    n = 100 if chk.tier == "quick" else 2500
+    n = 106 if chk.tier == "quick" else 2500
     cases, infos = [], []
     for i in range(n):
         s = scen.Scen()
@@ -333,6 +627,43 @@ def run(chk):
             infos.append(("program", it, cs0, {"inadequate": None, "final_keys": fk}))
             cases.append({"p": 10, "docs": s.docs, "root": r, "program": prog})
             continue
+        if 20 <= i < 26:
+            # corpus: trees of delegated roles - two roles on one level and a third below the first, every
+            # delegated role 2 of 3 keys of mixed algorithms (signed with exactly two, one offered key not in
+            # the table); the same with a role whose threshold exceeds its keys (sign must refuse); a role
+            # holding a target outside the paths delegated to it (sign must refuse)
+            cs0 = i % 2 == 0
+            E = {"op": "expires", "targets": 86400 * 41}
+            which = (i - 20) // 2
+            prog = [{"op": "new"}, {"op": "add_target", "name": "top.txt", "content": "top-%d" % i},
+                    {"op": "delegate_role", "name": "A", "keys": [4, 5, 6], "paths": ["a/*"], "threshold": 2,
+                     "expires": 86400 * 40, "version": 1},
+                    {"op": "delegate_role", "name": "B b", "keys": [7, 8, 9] if which != 1 else [7, 8], "paths": ["b/*", "bb/?"],
+                     "threshold": 2 if which != 1 else 3, "expires": 86400 * 40, "version": 4},
+                    {"op": "versions", "targets": 2}, E, {"op": "sign_targets_editor", "keys": [2]},
+                    {"op": "change_delegated_targets", "role": "A"},
+                    {"op": "add_target", "name": "a/x", "content": "x-%d" % i},
+                    {"op": "delegate_role", "name": "C", "keys": [10, 11, 12], "paths": ["a/c/*"], "threshold": 2,
+                     "expires": 86400 * 40, "version": 1},
+                    {"op": "versions", "targets": 3}, E, {"op": "sign_targets_editor", "keys": [4, 6]},
+                    {"op": "change_delegated_targets", "role": "C"},
+                    {"op": "add_target", "name": "a/c/y" if which != 2 else "b/outside", "content": "y-%d" % i},
+                    {"op": "versions", "targets": 5}, E, {"op": "sign_targets_editor", "keys": [12, 10, 2]},
+                    {"op": "change_delegated_targets", "role": "targets"},
+                    {"op": "versions", "targets": 7 + i, "snapshot": 8 + i, "timestamp": 9 + i},
+                    {"op": "expires", "targets": 86400 * 50, "snapshot": 86400 * 51, "timestamp": 86400 * 52},
+                    {"op": "sign_write", "keys": [1, 2, 3], "publish": "all", "link": False}, {"op": "load"}]
+            t = track(prog, len(prog) - 2)
+            it = Intent()
+            it.top = dict(t.top.targets)
+            it.roles = {r.name: {"targets": dict(r.targets), "parent": r.parent.name, "keys": r.keyids,
+                                 "threshold": r.threshold, "version": r.version} for r in t.all_roles()}
+            it.versions = (t.top.version, t.sv, t.tsv)
+            r = s.root(cs=cs0)
+            infos.append(("program", it, cs0, {"inadequate": "threshold 3 with 2 keys for role B b" if which == 1 else None,
+                                               "final_keys": [1, 2, 3], "tree_corpus": ["two-of-three", "under-signed", "outside-paths"][which]}))
+            cases.append({"p": 10, "docs": s.docs, "root": r, "program": prog})
+            continue
         if rng.random() < 0.3:
             prog, info = cross_party(rng, i)
             r = s.root(cs=rng.random() < 0.5)
@@ -345,7 +676,9 @@ def run(chk):
     # "@k" placeholders need the result of operation k: the interpreter resolves them
     out = C.run_impl(cases)
     pool_ids = [C.b2s(e[0]) for e in C.run_impl([[12, 1]])[0]]
+    pool_all = [C.b2s(e) for e in C.run_impl([[12, 3]])[0]]
     ed_cases = []        # (index, model case, abstraction of the written files)
+    tree_cases = []      # the same for ed_sign_tree: (description, model case, abstraction of the written files | None)
     for (kind, it, cs, info), c, o in zip(infos, cases, out):
         chk.seen([kind, json.dumps(c["program"])[:2000]], True)
         chk.count(kind)
@@ -381,6 +714,15 @@ def run(chk):
             bad = next((k for k, r in enumerate(res[:sw + 1]) if r[0] != 0), None)
             if bad is not None:
                 chk.count("refused-at-%s%s" % (ops[bad], "-2nd" if "from_repo" in ops[:bad] else ""))
+            if kind == "program" and bad is not None and ops[bad] == "sign_write":
+                # refused by sign (inadequate keys for a top-level role, a delegated role that does not verify
+                # under its delegating role, a reserved role name, a target outside the delegated paths):
+                # ed_sign_tree, given what the program put in, must refuse too
+                t = track(c["program"], bad)
+                if t is not None:
+                    tree_cases.append((full, tree_case(t, c["docs"][c["root"]], None, cs, Digests()), None))
+                else:
+                    chk.count("ed_sign_tree-not-tracked")
             if kind == "program" and not it.roles and bad == sw and "from_repo" not in ops:
                 # the model's ed_sign must refuse too (SigningKeysNotFound)
                 rd = c["docs"][c["root"]]
@@ -397,6 +739,19 @@ def run(chk):
             ec = ed_sign_case(c["docs"], c["root"], it, info["final_keys"], o["final_files"], cs, o["base"], pool_ids)
             if ec is not None:
                 ed_cases.append((full, ec[0], ec[1]))
+        if "base" in o:
+            t = track(c["program"], sw)
+            if t is None:
+                chk.count("ed_sign_tree-not-tracked")
+            else:
+                dg = Digests()
+                tc = tree_case(t, c["docs"][c["root"]], o["final_files"], cs, dg)
+                try:
+                    wt = written_tree(o["final_files"], cs, o["base"], pool_all, dg, c["docs"][c["root"]]["version"])
+                    tree_cases.append((full, tc, wt))
+                except Unabstractable as e:
+                    chk.broken("correspondence: the files RepositoryEditor::sign + write produced cannot be abstracted (%s)" % e,
+                               dict(full, model_case=tc))
         if load[0] != 0:
             chk.violation("the editor signed and wrote the repository without error, but the client refuses it: %s%s" % (
                 load, " (%s)" % info["inadequate"] if isinstance(info, dict) and info.get("inadequate") else ""), full)
@@ -452,9 +807,86 @@ def run(chk):
             if canon_ed(mr) != w:
                 chk.broken("correspondence: model ed_sign differs from the files RepositoryEditor::sign + write produced",
                            dict(full, model_case=case, model=canon_ed(mr), written=w))
+    # the Coq model of sign + write for repositories with delegated roles (Model/EditorRT.v ed_sign_tree, the subject of
+    # C10_roundtrip_delegated) against the files the editor wrote: every role file (version, expiration, entries,
+    # delegation headers, key tables, signers), the tree as the client resolves it, snapshot entries with
+    # lengths and digest identities, timestamp, file names; and refusals of sign against refusals of the model
+    if tree_cases:
+        mres = C.run_model([e[1] for e in tree_cases])
+        for (full, case, want), mr in zip(tree_cases, mres):
+            chk.count("ed_sign_tree-model-compared")
+            if case[5]:
+                chk.count("ed_sign_tree-with-delegated-roles")
+            if want is None:
+                chk.count("ed_sign_tree-refusal-compared")
+                if mr != [0]:
+                    chk.broken("correspondence: RepositoryEditor::sign refused but the model's ed_sign_tree signs",
+                               dict(full, model_case=case, model=mr))
+                continue
+            if canon_tree(mr) != canon_tree(want):
+                chk.broken("correspondence: model ed_sign_tree differs from the files RepositoryEditor::sign + write produced",
+                           dict(full, model_case=case, model=canon_tree(mr), written=canon_tree(want)))
     return chk
 
 
 def replay(path):
-    print(json.dumps(json.load(open(path)), indent=1)[:6000])
-    return 0
+    """a replay file holding a program is run again: through the real editor and client, through the tracker
+    and through the model (ed_sign_tree); anything else is printed"""
+    d = json.load(open(path))
+    if not (isinstance(d, dict) and "program" in d):
+        print(json.dumps(d, indent=1)[:6000])
+        return 0
+    C.ensure_coq()
+    C.ensure_harness()
+    cs = bool(d.get("consistent_snapshot", d.get("cs", False)))
+    prog = d["program"]
+    s = scen.Scen()
+    r = s.root(cs=cs)
+    o = C.run_impl([{"p": 10, "docs": s.docs, "root": r, "program": prog}])[0]
+    res = o.get("results") or []
+    ops = [p["op"] for p in prog]
+    print(d.get("what", ""))
+    for k, (op, x) in enumerate(zip(ops, res)):
+        print("  %2d %-26s %s" % (k, op, "accepted" if x[0] == 0 else "REFUSED %s" % json.dumps(x)[:80]))
+    print("files written:", sorted(o.get("final_files", {})))
+    sws = [k for k, p in enumerate(ops) if p == "sign_write"]
+    bad = 1
+    if not sws:
+        return 0
+    sw = sws[-1]
+    t = track(prog, sw)
+    put_in = None
+    if t is not None:
+        put_in = sorted(set(t.top.targets) | {n for x in t.all_roles() for n in x.targets})
+        print("targets put in:", put_in, " roles:", [x.name for x in t.all_roles()])
+    load = res[-1] if ops[-1] == "load" and res else None
+    if load is not None and res[sw][0] == 0:
+        if load[0] != 0:
+            print("IMPLEMENTATION: sign and write succeeded, the client refuses the repository: %s" % json.dumps(load)[:100])
+        else:
+            got = sorted(C.b2s(x[0]) for x in load[1]["targets"])
+            print("IMPLEMENTATION: loaded targets:", got, " roles:", [C.b2s(x) for x in load[1]["roles"]])
+            if put_in is not None and got != put_in:
+                print("IMPLEMENTATION: the loaded repository does not show what was put in")
+            else:
+                bad = 0
+    if t is not None:
+        dg = Digests()
+        okw = res[sw][0] == 0
+        tc = tree_case(t, s.docs[r], o["final_files"] if okw else None, cs, dg)
+        mr = C.run_model([tc])[0]
+        print("MODEL ed_sign_tree:", "signs and writes" if mr and mr[0] == 1 else "refuses")
+        if okw and mr and mr[0] == 1:
+            try:
+                pool_all = [C.b2s(e) for e in C.run_impl([[12, 3]])[0]]
+                wt = written_tree(o["final_files"], cs, o["base"], pool_all, dg, s.docs[r]["version"])
+                cm, cw = canon_tree(mr), canon_tree(wt)
+                parts = ["the tree the editor holds / the tree a client resolves from the files", "snapshot", "timestamp",
+                         "written files (names and documents)"]
+                for k, what in enumerate(parts):
+                    print("MODEL vs written - %s: %s" % (what, "equal" if cm[k + 1] == cw[k + 1] else "DIFFERENT"))
+                names = lambda x: sorted(C.b2s(f[0]) for f in x[4])
+                print("MODEL files:", names(canon_tree(mr)))
+            except Unabstractable as e:
+                print("written files cannot be abstracted:", e)
+    return bad
